@@ -201,3 +201,94 @@ Qed.
 Example mixed_spellings_narrow :
   simplify_superclasses ex_deps (TUnion [TName KNamed 20; TName KClass 20]) = TNothing.
 Proof. vm_compute. reflexivity. Qed.
+
+(* ================================================================ "the only changes are ..."
+   The justified-rewrite relation (Opt/Rewrites.v): reflexive-transitive congruence closure of small named
+   schemas — (1) JoinTypes housekeeping, (2) container merging, (3) hierarchy-justified union simplification
+   and the max_union collapse, (4) identical signatures removed / equal-parameter signatures merged,
+   (5) object->Any, C[Any..]->C, mutated parameter absorbed, self: C[..]->C — plus two schemas the property
+   text does not name: NamedType->ClassType (LookupClasses) and x -> UnionType((x,)) (CombineContainers'
+   one-member re-wrap). *)
+From PV Require Import Opt.Rewrites Opt.RewriteProofs.
+
+(* the relation itself cannot narrow: for all hierarchies, max_union, types, values *)
+Theorem jr_widens : forall H mx t t', jr_ty H mx t t' -> forall v, admits H t v -> admits H t' v.
+Proof. exact jr_widens_lemma. Qed.
+Print Assumptions jr_widens.
+Theorem jr_unit_widens : forall Hd mx u u', jr_unit Hd mx u u' -> unit_wider (hier_of u ++ Hd) u u'.
+Proof. exact jr_unit_widens_lemma. Qed.
+Print Assumptions jr_unit_widens.
+
+(* per pass: P t is reachable from t by justified rewrites *)
+Theorem join_types_justified : forall H mx ts, jr_ty H mx (TUnion ts) (join ts).
+Proof. exact jr_join. Qed.
+Print Assumptions join_types_justified.
+Theorem simplify_unions_justified : forall H mx t, jr_ty H mx t (simplify_unions t).
+Proof. exact simplify_unions_jr. Qed.
+Print Assumptions simplify_unions_justified.
+Theorem combine_containers_justified : forall H mx k t, wf k t -> jr_ty H mx t (combine_containers t).
+Proof. exact combine_containers_jr. Qed.
+Print Assumptions combine_containers_justified.
+Theorem simplify_containers_justified : forall H mx b t, jr_ty H mx t (simplify_containers b t).
+Proof. exact simplify_containers_jr. Qed.
+Print Assumptions simplify_containers_justified.
+Theorem simplify_superclasses_justified : forall H mx k t,
+  ranked H -> wf k t -> jr_ty H mx t (simplify_superclasses H t).
+Proof. exact simplify_superclasses_jr. Qed.
+Print Assumptions simplify_superclasses_justified.
+Theorem collapse_long_unions_justified : forall H mx t, mx <> 0 -> jr_ty H mx t (collapse_long_unions mx t).
+Proof. exact collapse_long_unions_jr. Qed.
+Print Assumptions collapse_long_unions_justified.
+Theorem adjust_generic_type_justified : forall H mx t, jr_ty H mx t (adjust_generic_type t).
+Proof. exact adjust_generic_type_jr. Qed.
+Print Assumptions adjust_generic_type_justified.
+Theorem remove_duplicates_justified : forall H mx cls f, jr_func H mx cls f (remove_duplicates_f f).
+Proof. exact remove_duplicates_jr. Qed.
+Print Assumptions remove_duplicates_justified.
+Theorem signature_merge_justified : forall H mx cls f, jr_func H mx cls f (combine_returns_f f).
+Proof. exact combine_returns_jr. Qed.
+Print Assumptions signature_merge_justified.
+Theorem normalize_generic_self_justified : forall H mx c s, jr_sig H mx (Some c) s (normalize_self_sig c s).
+Proof. exact normalize_self_sig_jr. Qed.
+Print Assumptions normalize_generic_self_justified.
+
+(* the pipeline Optimize runs, for the regenerated pass list and every lossless setting (any deps /
+   max_union / can_do_lookup; no remove_mutable): the optimised unit is reachable from the input by
+   justified rewrites only.  Hypotheses as for optimize_widens: on the faithful model
+   SimplifyUnionsWithSuperclasses is NOT a justified rewrite on units mixing NamedType("A") with
+   ClassType("A") (it drops both), nor on cyclic hierarchies. *)
+Theorem lossless_changes_only : forall k o Hd u u',
+  lossless o -> ranked (hier_of u ++ Hd) -> wf_unit k u ->
+  opt o Hd u = Some u' -> jr_unit Hd (o_max_union o) u u'.
+Proof. exact lossless_changes_only_lemma. Qed.
+Print Assumptions lossless_changes_only.
+
+Theorem lossless_changes_only_ty : forall H k o t t',
+  o_lossy o = false -> wf k t -> opt_ty o t = Some t' -> jr_ty H (o_max_union o) t t'.
+Proof. exact lossless_changes_only_ty_lemma. Qed.
+Print Assumptions lossless_changes_only_ty.
+
+(* optimize_widens for the lossless settings is a corollary of the two theorems above *)
+Corollary optimize_widens_by_rewrites : forall k o Hd u u',
+  lossless o -> ranked (hier_of u ++ Hd) -> wf_unit k u ->
+  opt o Hd u = Some u' -> unit_wider (hier_of u ++ Hd) u u'.
+Proof. exact optimize_widens_from_rewrites. Qed.
+Print Assumptions optimize_widens_by_rewrites.
+
+(* non-vacuity: the example unit above (subclass absorption, tuple degeneration and merge, signature merge,
+   List[object] -> list) is related to its optimised form; and a derivation spelled out with the named rules:
+   Union[B, A, B] -> Union[B, A] (same members) -> Union[A] (B absorbed by its listed superclass A) -> A *)
+Example ex_rewrites : jr_unit ex_deps 7 ex_unit ex_unit_opt.
+Proof.
+  destruct ex_hypotheses as [R W].
+  exact (lossless_changes_only KClass pytype_opts ex_deps ex_unit ex_unit_opt lossless_pytype_opts R W ex_optimised).
+Qed.
+Example ex_rules : jr_ty ex_deps 7 (TUnion [TName KClass 21; TName KClass 20; TName KClass 21]) (TName KClass 20).
+Proof.
+  eapply jr_trans; [apply (jr_same_members _ _ _ [TName KClass 21; TName KClass 20])|].
+  - intros x. split; intros [t [Hin M]]; exists t; split; try exact M; simpl in *; tauto.
+  - eapply jr_trans; [apply (jr_subclass_absorbed ex_deps 7 [] KClass 21 [TName KClass 20] KClass 20)|].
+    + left; reflexivity.
+    + eapply sub_step; [simpl; left; reflexivity | apply sub_refl].
+    + apply jr_one_member.
+Qed.
